@@ -1,0 +1,76 @@
+//go:build verif
+
+package eval
+
+import (
+	"errors"
+
+	"github.com/cedar-policy/cedar-go/internal"
+	"github.com/cedar-policy/cedar-go/internal/mapset"
+	"github.com/cedar-policy/cedar-go/types"
+	"github.com/cedar-policy/cedar-go/x/exp/ast"
+)
+
+// VerifErrKind maps an evaluation error to a small enum (verification hook; build tag verif).
+func VerifErrKind(err error) string {
+	switch {
+	case err == nil:
+		return ""
+	case errors.Is(err, ErrType):
+		return "type"
+	case errors.Is(err, errOverflow):
+		return "overflow"
+	case errors.Is(err, errAttributeAccess):
+		return "attr"
+	case errors.Is(err, errTagAccess):
+		return "tag"
+	case errors.Is(err, errEntityNotExist):
+		return "entity"
+	case errors.Is(err, errUnspecifiedEntity):
+		return "unspecified"
+	case errors.Is(err, errArity):
+		return "arity"
+	case errors.Is(err, errUnknownExtensionFunction):
+		return "unknownfn"
+	case errors.Is(err, internal.ErrDecimal):
+		return "ext-decimal"
+	case errors.Is(err, internal.ErrIP):
+		return "ext-ip"
+	case errors.Is(err, internal.ErrDatetime):
+		return "ext-datetime"
+	case errors.Is(err, internal.ErrDuration):
+		return "ext-duration"
+	case errors.Is(err, errVariable):
+		return "variable"
+	}
+	return "other"
+}
+
+func VerifCheckedAdd(a, b int64) (int64, bool) {
+	r, ok := checkedAddI64(types.Long(a), types.Long(b))
+	return int64(r), ok
+}
+
+func VerifCheckedSub(a, b int64) (int64, bool) {
+	r, ok := checkedSubI64(types.Long(a), types.Long(b))
+	return int64(r), ok
+}
+
+func VerifCheckedMul(a, b int64) (int64, bool) {
+	r, ok := checkedMulI64(types.Long(a), types.Long(b))
+	return int64(r), ok
+}
+
+func VerifCheckedNeg(a int64) (int64, bool) {
+	r, ok := checkedNegI64(types.Long(a))
+	return int64(r), ok
+}
+
+func VerifEntityInOne(env Env, a, b types.EntityUID) bool { return entityInOne(env, a, b) }
+
+func VerifEntityInSet(env Env, a types.EntityUID, bs []types.EntityUID) bool {
+	return entityInSet(env, a, mapset.FromItems(bs...))
+}
+
+// VerifFoldPolicy exposes foldPolicy (what Compile evaluates).
+func VerifFoldPolicy(p *ast.Policy) *ast.Policy { return foldPolicy(p) }
